@@ -142,6 +142,57 @@ def run_equiv(args):
         shutil.rmtree(d, ignore_errors=True)
 
 
+SEEDED_DIR = os.path.join(os.path.dirname(EQUIV_DIR), "seeded")
+
+
+def seeded_patches(pid: Optional[str] = None) -> List[tuple]:
+    """(patch, property) of the breaking changes produced by independent sub-agents and confirmed by hand
+    (kept under /verif/seeded/<id>/ with their demonstration)"""
+    import json
+    out = []
+    if not os.path.isdir(SEEDED_DIR):
+        return out
+    for d in sorted(os.listdir(SEEDED_DIR)):
+        pf, mf = os.path.join(SEEDED_DIR, d, "patch.diff"), os.path.join(SEEDED_DIR, d, "meta.json")
+        if os.path.isfile(pf) and os.path.isfile(mf):
+            try:
+                prop = json.load(open(mf)).get("property")
+            except Exception:
+                continue
+            if prop and (pid is None or prop == pid):
+                out.append((pf, prop))
+    return out
+
+
+def run_seeded(args):
+    """a confirmed breaking change of a property (unified diff under /verif/seeded) must be reported by the
+    rules of that property; applied to a scratch copy under $TMPDIR which is removed afterwards"""
+    import shutil
+    import subprocess
+    import tempfile
+    root, patch, rules = args
+    from .. import props  # noqa: F401
+    from ..runner import run_rules, RULES as _R
+    name = "seeded/" + os.path.basename(os.path.dirname(patch))
+    d = tempfile.mkdtemp(prefix="sa_sd_")
+    try:
+        shutil.copytree(os.path.join(root, "lbfgsb"), os.path.join(d, "lbfgsb"))
+        r = subprocess.run(["patch", "-p1", "-s", "-f", "-d", d, "-i", patch], capture_output=True, text=True)
+        if r.returncode != 0:
+            return (name, "M", "n/a", "")
+        try:
+            obs = run_rules(Repo(d), [x for x in rules if x in _R])
+        except AnalysisError as e:
+            return (name, "M", "ok", f"ANALYSIS-ERROR {str(e)[:100]}")
+        bad = [o for o in obs if not o.ok]
+        if bad:
+            o = bad[0]
+            return (name, "M", "ok", f"{o.rule} {o.file}:{o.line} {o.construct[:60]}")
+        return (name, "M", "fail", "seeded breaking change not reported")
+    finally:
+        shutil.rmtree(d, ignore_errors=True)
+
+
 def equiv_patches() -> List[str]:
     if not os.path.isdir(EQUIV_DIR):
         return []
@@ -167,11 +218,12 @@ def run_for_property(pid: str, spec: dict, root: str, tier: str) -> dict:
     jobs = [(root, {**m, "rules": [r for r in m["rules"] if r in spec["rules"]]}, "M") for m in ms] + \
            [(root, {**q, "rules": [r for r in q["rules"] if r in spec["rules"]]}, "Q") for q in qs]
     eq = [(root, p, spec["rules"]) for p in equiv_patches()] if tier == "thorough" else []
-    if tier == "thorough" and len(jobs) + len(eq) > 8:
-        with ProcessPoolExecutor(max_workers=min(16, len(jobs) + len(eq))) as ex:
-            res = list(ex.map(run_variant, jobs)) + list(ex.map(run_equiv, eq))
+    sd = [(root, p, spec["rules"]) for p, _ in seeded_patches(pid)] if tier == "thorough" else []
+    if tier == "thorough" and len(jobs) + len(eq) + len(sd) > 8:
+        with ProcessPoolExecutor(max_workers=min(16, len(jobs) + len(eq) + len(sd))) as ex:
+            res = list(ex.map(run_variant, jobs)) + list(ex.map(run_equiv, eq)) + list(ex.map(run_seeded, sd))
     else:
-        res = [run_variant(j) for j in jobs] + [run_equiv(e) for e in eq]
+        res = [run_variant(j) for j in jobs] + [run_equiv(e) for e in eq] + [run_seeded(e) for e in sd]
     out = {"mutants_run": 0, "mutants_fired": 0, "equivalents_run": 0, "equivalents_silent": 0,
            "not_applicable": [], "failed": [], "fired": []}
     for vid, kind, st, msg in res:
@@ -197,11 +249,13 @@ def run_all(root: str, rules: List[str], jobs: int, verbose: bool) -> int:
     work = [(root, m, "M") for m in ms] + [(root, q, "Q") for q in qs]
     from ..runner import RULES as _R
     eq = [(root, p, rules or sorted(_R)) for p in equiv_patches()]
+    from .. import props as _props
+    sd = [] if rules else [(root, p, _props.PROPS[prop]["rules"]) for p, prop in seeded_patches() if prop in _props.PROPS]
     if jobs > 1 and len(work) > 4:
         with ProcessPoolExecutor(max_workers=jobs) as ex:
-            res = list(ex.map(run_variant, work)) + list(ex.map(run_equiv, eq))
+            res = list(ex.map(run_variant, work)) + list(ex.map(run_equiv, eq)) + list(ex.map(run_seeded, sd))
     else:
-        res = [run_variant(w) for w in work] + [run_equiv(e) for e in eq]
+        res = [run_variant(w) for w in work] + [run_equiv(e) for e in eq] + [run_seeded(e) for e in sd]
     fails = 0
     for vid, kind, st, msg in res:
         if st == "fail":
